@@ -352,6 +352,7 @@ def check_case(case):
     if len(case.get("members", [])) < 1:
         return []
     with S.lib_session(), S.scratch_dir() as tmp:
+        S.require_accepted(case["pop"])
         w = World(case, tmp, fails)
         if w.ok:
             w.run()
@@ -534,7 +535,7 @@ def run(ctx):
         ctx.note(case, nt, cl)
         ctx.handle(case, fails)
 
-    core.run_given(ctx, configuration(), body, ctx.n(480, 2500), label="c18-configurations")
+    core.run_given(ctx, configuration(), body, ctx.n(440, 2500), label="c18-configurations")
     if ctx.evaluations >= 300:
         low = [c for c in REQUIRED_CLASSES if ctx.classes.get(c, 0) < 0.01 * ctx.evaluations]
         if low:
